@@ -675,3 +675,136 @@ func dkgInfinityThenJunk(run *mon.Run) {
 	wg.Wait()
 	run.Require(run.Counter("infinity-then-junk.receivers") >= 40, "fewer than 40 receivers of infinity-then-junk vectors")
 }
+
+// dkgRootAnswered is a C07 leg (agreement): Feldman-VSS-Qual, the dealer's polynomial has a root at the
+// complainer's point, the complainer P got no usable share and complains, and the dealer answers with
+// one of several scalars (32 zero bytes - the "true" share, which the share format excludes -, one, r,
+// a random value). P and a bystander B who holds a correct share see exactly the same broadcasts.
+// Whatever the library decides about such an answer, P and B must decide the same: both fail with a DKG
+// failure or both return keys (and then the same group key and public shares).
+func dkgRootAnswered(run *mon.Run) {
+	grid := [][2]int{{3, 1}, {4, 2}, {5, 2}}
+	if !run.Quick() {
+		grid = append(grid, [2]int{6, 3}, [2]int{7, 2})
+	}
+	answers := []string{"zero", "one", "r", "random", "none"}
+	pshares := []string{"none", "zero", "tag-only", "one"}
+	for gi, g := range grid {
+		n, t := g[0], g[1]
+		r := run.Rand(fmt.Sprintf("root-answered-%d", gi))
+		for rep := 0; rep < run.Pick(1, 4); rep++ {
+			dealer := r.IntN(n)
+			P := (dealer + 1 + r.IntN(n-1)) % n
+			B := P
+			for B == P || B == dealer {
+				B = r.IntN(n)
+			}
+			x := int64(P + 1)
+			p := craftedPoly{kind: "root-at-complainer", a: make([]*big.Int, t+1)}
+			for i := range p.a {
+				p.a[i] = randScalar(r)
+			}
+			p.a[0] = new(big.Int)
+			p.a[0] = ref.Fr.Neg(p.eval(x))
+			if p.a[0].Sign() == 0 || p.eval(int64(B+1)).Sign() == 0 {
+				continue
+			}
+			vec := p.vectorBytes()
+			shareB := append([]byte{sim.TagShare}, scalar32(p.eval(int64(B+1)))...)
+			for _, ak := range answers {
+				for _, ps := range pshares {
+					var body []byte
+					switch ak {
+					case "zero":
+						body = make([]byte, 32)
+					case "one":
+						body = scalar32(big.NewInt(1))
+					case "r":
+						body = scalar32(ref.R)
+					case "random":
+						body = scalar32(randScalar(r))
+					}
+					var answer []byte
+					if ak != "none" {
+						answer = append([]byte{sim.TagAnswer, byte(P)}, body...)
+					}
+					var shareP []byte
+					switch ps {
+					case "zero":
+						shareP = append([]byte{sim.TagShare}, make([]byte, 32)...)
+					case "tag-only":
+						shareP = []byte{sim.TagShare}
+					case "one":
+						shareP = append([]byte{sim.TagShare}, scalar32(big.NewInt(1))...)
+					}
+					repm := map[string]any{"n": n, "t": t, "dealer": dealer, "complainer": P, "bystander": B, "answer": ak, "complainer_share": ps, "vector": mon.Hex(vec)}
+					type node struct {
+						in  crypto.DKGState
+						rp  *recProc
+						err error
+						gpk []byte
+					}
+					mk := func(id int) *node {
+						rp := newRecProc()
+						in, err := crypto.NewFeldmanVSSQual(n, t, id, rp, dealer)
+						if err != nil {
+							return nil
+						}
+						_ = in.Start(bytes.Repeat([]byte{byte(id + 9)}, 32))
+						return &node{in: in, rp: rp}
+					}
+					nP, nB := mk(P), mk(B)
+					if nP == nil || nB == nil {
+						continue
+					}
+					problem := ""
+					func() {
+						defer func() {
+							if e := recover(); e != nil {
+								problem = fmt.Sprintf("panic: %v at %s", e, mon.PanicSite())
+							}
+						}()
+						// round 1: vector to both, shares
+						_ = nP.in.HandleBroadcastMsg(dealer, vec)
+						_ = nB.in.HandleBroadcastMsg(dealer, vec)
+						_ = nB.in.HandlePrivateMsg(dealer, shareB)
+						if shareP != nil {
+							_ = nP.in.HandlePrivateMsg(dealer, shareP)
+						}
+						_ = nP.in.NextTimeout()
+						_ = nB.in.NextTimeout()
+						// round 2: P's complaint(s) reach B, the dealer's answer reaches both
+						for _, bc := range nP.rp.bcast {
+							_ = nB.in.HandleBroadcastMsg(P, bc)
+						}
+						if answer != nil {
+							_ = nP.in.HandleBroadcastMsg(dealer, answer)
+							_ = nB.in.HandleBroadcastMsg(dealer, answer)
+						}
+						_ = nP.in.NextTimeout()
+						_ = nB.in.NextTimeout()
+						for _, nd := range []*node{nP, nB} {
+							_, gpk, _, err := nd.in.End()
+							nd.err = err
+							if err == nil {
+								nd.gpk = gpk.Encode()
+							}
+						}
+					}()
+					run.Eval(1)
+					run.Count("root-answered.runs", 1)
+					if problem != "" {
+						run.Violate("C07:root-polynomial-answered:problem", problem, repm)
+						return
+					}
+					if (nP.err == nil) != (nB.err == nil) || (nP.err == nil && !bytes.Equal(nP.gpk, nB.gpk)) {
+						run.Violate("C07:root-polynomial-answered:disagree:answer-"+ak, fmt.Sprintf("Feldman-VSS-Qual (n=%d,t=%d), polynomial with a root at the complainer's point, complainer's private message %q, dealer's answer %q: the complainer ends with %v, a bystander who saw the same broadcasts ends with %v", n, t, ps, ak, nP.err, nB.err), repm)
+						return
+					}
+					run.Shape(fmt.Sprintf("root-answered|%s|%s|%v", ak, ps, nP.err == nil))
+				}
+			}
+		}
+	}
+	run.Require(run.Counter("root-answered.runs") >= 40, "fewer than 40 root-polynomial runs with an answered complaint")
+}
